@@ -340,7 +340,7 @@ func (x *fcWorld) sWinUpd(i int) {
 		if x.disc && !x.dead && off != st.credit+after[flowcontrol.VReceiveWindowSize] {
 			x.fail("flowctl/window-value/stream", fmt.Sprintf("stream %d advertised %d != consumed %d + window %d", i, off, st.credit, after[flowcontrol.VReceiveWindowSize]))
 		}
-		st.adv = off
+		st.adv = max(st.adv, off) // the peer may use the LARGEST limit it was ever given
 	}
 }
 
@@ -360,7 +360,7 @@ func (x *fcWorld) cWinUpd() {
 		if x.disc && !x.dead && off != x.sumCredit()+after[flowcontrol.VReceiveWindowSize] {
 			x.fail("flowctl/window-value/conn", fmt.Sprintf("connection advertised %d != consumed %d + window %d", off, x.sumCredit(), after[flowcontrol.VReceiveWindowSize]))
 		}
-		x.cAdv = off
+		x.cAdv = max(x.cAdv, off)
 	}
 }
 
@@ -801,33 +801,77 @@ func fcScripted(w *bufio.Writer, dist map[string]int) {
 		},
 	}
 	for _, sc := range scripts {
-		func() {
-			x := &fcWorld{w: w, r: u.NewRng(11), fails: map[string]bool{}, cBlocked: map[int64]int{}, kind: "scripted", disc: true}
-			defer func() {
-				if e := recover(); e != nil {
-					fmt.Fprintf(w, "MONFAIL\tflowctl/panic\tpanic: %v\t%s\n", e, strings.Join(x.human, " ; "))
-				}
-			}()
-			x.rtt = utils.NewRTTStats()
-			x.now = 1000000000
-			cw, cmax := int64(16), int64(32)
-			x.cAdv, x.cLastRWS, x.cInitRWS, x.cMaxRWS = cw, cw, cw, cmax
-			x.conn = flowcontrol.NewConnectionFlowController(protocol.ByteCount(cw), protocol.ByteCount(cmax),
-				func(size protocol.ByteCount) bool { x.allowDelta = int64(size); return x.allowAns }, x.rtt, utils.DefaultLogger)
-			for _, f := range sc {
-				f(x)
-				x.checkState()
-			}
-			x.probeBlocked()
-			cs := flowcontrol.VerifConnState(x.conn)
-			var sts []string
-			for _, st := range x.streams {
-				ss, fin := flowcontrol.VerifStreamState(st.fc)
-				sts = append(sts, u.Pair(fcDump(ss), u.B(fin)))
-			}
-			fmt.Fprintf(w, "CASE 1 %s\n", u.App("FC", u.Z(cw), u.Z(cmax), u.List(x.ops), u.List(x.rets), fcDump(cs), u.List(sts)))
-			dist["scripted"]++
-		}()
+		fcRunScript(w, dist, 16, 32, sc)
+	}
+	fcScriptedTune(w, dist)
+}
+
+// fcRunScript runs one fixed op sequence on fresh controllers (1 ms between the ops: far below the RTT).
+func fcRunScript(w *bufio.Writer, dist map[string]int, cw, cmax int64, sc []func(x *fcWorld)) {
+	x := &fcWorld{w: w, r: u.NewRng(11), fails: map[string]bool{}, cBlocked: map[int64]int{}, kind: "scripted", disc: true}
+	defer func() {
+		if e := recover(); e != nil {
+			fmt.Fprintf(w, "MONFAIL\tflowctl/panic\tpanic: %v\t%s\n", e, strings.Join(x.human, " ; "))
+		}
+	}()
+	x.rtt = utils.NewRTTStats()
+	x.now = 1000000000
+	x.allowAns = true
+	x.cAdv, x.cLastRWS, x.cInitRWS, x.cMaxRWS = cw, cw, cw, cmax
+	x.conn = flowcontrol.NewConnectionFlowController(protocol.ByteCount(cw), protocol.ByteCount(cmax),
+		func(size protocol.ByteCount) bool { x.allowDelta = int64(size); return x.allowAns }, x.rtt, utils.DefaultLogger)
+	for _, f := range sc {
+		x.now += 1000000
+		f(x)
+		x.checkState()
+	}
+	x.probeBlocked()
+	cs := flowcontrol.VerifConnState(x.conn)
+	var sts []string
+	for _, st := range x.streams {
+		ss, fin := flowcontrol.VerifStreamState(st.fc)
+		sts = append(sts, u.Pair(fcDump(ss), u.B(fin)))
+	}
+	fmt.Fprintf(w, "CASE 1 %s\n", u.App("FC", u.Z(cw), u.Z(cmax), u.List(x.ops), u.List(x.rets), fcDump(cs), u.List(sts)))
+	dist["scripted"]++
+}
+
+// fcScriptedTune: window auto-tuning with a configured MAXIMUM receive window BELOW the initial one
+// (Config does not forbid it: e.g. MaxStreamReceiveWindow = 128 KiB with the default 512 KiB initial
+// window), RTT known, the application consumes 60% of the window within 2 ms: the "too fast" branch
+// of maybeAdjustWindowSize is taken, and the window size must NOT move (min(2w, max) < w). Then the
+// peer uses the rest of the limit it was given. For the stream and for the connection controller,
+// max = 128 KiB / 512 KiB, initial/2 and initial/2 +- 1, initial/4, tiny. Monitors:
+// window-size-shrunk, window-not-increasing, recv/rejects-within-advertised.
+func fcScriptedTune(w *bufio.Writer, dist map[string]int) {
+	for _, c := range [][2]int64{{524288, 131072}, {1000, 500}, {1000, 499}, {1000, 501}, {1000, 250}, {16, 7}, {1000, 1000}, {1000, 1500}} {
+		ini, mx := c[0], c[1]
+		part := ini * 6 / 10
+		// the stream controller
+		fcRunScript(w, dist, 8*ini, 16*ini, []func(x *fcWorld){
+			func(x *fcWorld) { x.newStream(ini, mx, 0) },
+			func(x *fcWorld) { x.sRecv(0, part, false) },
+			func(x *fcWorld) { x.sRead(0, part) },
+			func(x *fcWorld) { x.sWinUpd(0) },
+			func(x *fcWorld) { x.cWinUpd() },
+			func(x *fcWorld) { x.sRecv(0, ini, false) }, // still within the limit advertised at the start
+			func(x *fcWorld) { x.sRead(0, ini-part) },
+			func(x *fcWorld) { x.sWinUpd(0) },
+			func(x *fcWorld) { x.sRecv(0, ini+1, false) },
+		})
+		// the connection controller (the stream windows are out of the way)
+		fcRunScript(w, dist, ini, mx, []func(x *fcWorld){
+			func(x *fcWorld) { x.newStream(4*ini, 4*ini, 0) },
+			func(x *fcWorld) { x.newStream(4*ini, 4*ini, 0) },
+			func(x *fcWorld) { x.sRecv(0, part/2, false) },
+			func(x *fcWorld) { x.sRecv(1, part-part/2, false) },
+			func(x *fcWorld) { x.sRead(0, part/2) },
+			func(x *fcWorld) { x.sRead(1, part-part/2) },
+			func(x *fcWorld) { x.cWinUpd() },
+			func(x *fcWorld) { x.sRecv(0, part/2+(ini-part), false) }, // the connection total reaches the initial limit
+			func(x *fcWorld) { x.sRead(0, ini-part) },
+			func(x *fcWorld) { x.cWinUpd() },
+		})
 	}
 }
 
